@@ -57,7 +57,7 @@ func funcPtr(o postscript.Object) uintptr {
 	}
 	return v.Pointer()
 }
-func mapPtr(d postscript.Dict) uintptr    { return reflect.ValueOf(d).Pointer() }
+func mapPtr(d postscript.Dict) uintptr { return reflect.ValueOf(d).Pointer() }
 
 // newCanon must be called on a fresh interpreter, before any program runs.
 func newCanon(intp *postscript.Interpreter) *canon {
